@@ -118,6 +118,51 @@ prop("C16", "exploration",
      "runtime oracle over grammar-generated and mutated inputs", "DESIGN.md §3 C16")
 
 
+prop("C12", "exploration",
+     "cases = Get/Put operations of seed-generated histories on fresh byteslice.Pool / ringbuffer.Pool instances: sizes {<=0, 1, 2^k-1, 2^k, 2^k+1, odd, random} up to 2^22 (thorough 2^26, "
+     "plus a sequential handful up to 2^31-1), hostile Put shapes {whole, shorter length, tail b[k:], clipped head b[:k:k], zero-capacity view, foreign window of a larger array with canary "
+     "margins}, runtime.GC twice at seed-chosen moments; concurrent histories from 2/4/16 goroutines on a shared pool. Monitor: a ledger (interval map) of outstanding address ranges - every "
+     "Get must have len==n, cap>=n, be disjoint from every outstanding range and stay inside the range donated by the Put it came from; every held slice carries a handle-specific pattern "
+     "verified at Put and at the end. distinct_nontrivial = distinct (operation, size class or Put shape, fresh/recycled) tuples checked. Thorough adds -race (=> checkptr) and -asan builds",
+     [
+         {"harness": "pool", "args": {"quick": ["--mode", "all", "--n", "1500"], "thorough": ["--mode", "all"]}, "timeout": {"quick": 600, "thorough": 3400}},
+         {"harness": "pool", "race": True, "args": {"quick": ["--mode", "all", "--n", "150"], "thorough": ["--mode", "all", "--n", "3000"]}, "timeout": {"quick": 600, "thorough": 3400}, "crash_is_violation": True},
+         {"harness": "pool", "asan": True, "tiers": ["thorough"], "args": {"thorough": ["--mode", "all", "--n", "3000"]}, "timeout": {"thorough": 3400}, "crash_is_violation": True},
+         {"harness": "pool", "tiers": ["thorough"], "args": {"thorough": ["--mode", "huge"]}, "timeout": {"thorough": 1200}},
+     ],
+     "Ledger monitor over the real pools plus Go's checkptr/ASan instrumentation: aliasing is a relation between two live slices, so it is checked against the set of outstanding "
+     "address ranges at every Get, not by sampling contents only.",
+     "the ledger keeps every slice alive, so addresses cannot be recycled by the GC within a history; memory put into the pool while a third party still references it is outside this "
+     "harness (C17 watches zone strings for that)",
+     "runtime ledger monitor over generated Get/Put histories + race detector/checkptr + ASan", "DESIGN.md §3 C12")
+
+prop("C15", "exploration",
+     "cases = next() calls on the real load balancers for every N in 1..256: RoundRobin k*N calls (counts compared after every N), LeastConnections over seed-generated count vectors "
+     "(unique minimum at a random position, ties), SourceAddrHash over IPv4/IPv6+zone/Unix/empty/random-byte addresses and 36 crafted strings whose CRC32 is 0x80000000, 0x7fffffff, "
+     "0xffffffff, 0, 1, 0x80000001 (same string twice => same loop; every result must be a registered loop); rerun as a 32-bit binary. distinct_nontrivial = distinct (policy, N)",
+     [
+         {"harness": "lb", "args": {"quick": [], "thorough": []}, "timeout": {"quick": 300, "thorough": 900}},
+         {"harness": "lb", "arch": "386", "args": {"quick": [], "thorough": []}, "timeout": {"quick": 300, "thorough": 900}},
+     ],
+     "Oracle over the package-internal balancers (reached through an injected export file) for all loop counts 1..256; the end-to-end part (the loop a connection is assigned "
+     "to is the loop on which its callbacks run) is checked by the engine harness jobs of this property.",
+     "bare event loops without pollers; counts are set through the registry's own counter",
+     "runtime oracle over all loop counts, crafted hash inputs, 32-bit rerun", "DESIGN.md §3 C15")
+
+prop("C17", "exploration",
+     "cases = (IP, port, zone) triples: IPv4 4-byte and 16-byte forms, random/link-local/loopback/unspecified IPv6, ports {0,1,80,255,256,65535,random}, zones {none, every interface "
+     "name present, every interface index as a decimal string, numbers without an interface}; NetAddrToSockaddr followed by SockaddrToTCPOrUnixAddr / SockaddrToUDPAddr must return an "
+     "equal IP, port and a well-formed zone with the same scope id; invalid IP lengths and unsupported networks must give nil; Unix paths round-trip. distinct_nontrivial = distinct "
+     "(tcp|udp, address class, zone class) tuples",
+     [
+         {"harness": "addr", "args": {"quick": [], "thorough": []}, "timeout": {"quick": 300, "thorough": 1800}},
+     ],
+     "Round-trip oracle over pkg/socket's conversion functions; the truthful-reporting part (RemoteAddr/LocalAddr inside callbacks under churn) is checked by the engine harness jobs "
+     "of this property.",
+     "zone equality is judged by scope id (interface index), because index->name->index is the identity the kernel sees",
+     "runtime round-trip oracle", "DESIGN.md §3 C17")
+
+
 # ---------------------------------------------------------------------------------------
 NOT_APPLICABLE = []
 
